@@ -5,6 +5,7 @@ import (
 	"crypto/ed25519"
 	"crypto/elliptic"
 	"crypto/sha256"
+	"crypto/sha512"
 	"math/big"
 
 	i2pdsa "github.com/go-i2p/crypto/dsa"
@@ -51,6 +52,27 @@ func (g *G) newSigner(typ int) *signer {
 				panic("harness: ecdsa sign: " + err.Error())
 			}
 			return append(r.FillBytes(make([]byte, 32)), s.FillBytes(make([]byte, 32))...)
+		}}
+	case 2:
+		var d *big.Int
+		n := elliptic.P384().Params().N
+		for {
+			d = new(big.Int).SetBytes(g.R.bytes(48))
+			if d.Sign() > 0 && d.Cmp(n) < 0 {
+				break
+			}
+		}
+		x, y := elliptic.P384().ScalarBaseMult(d.Bytes())
+		k := &ecdsa.PrivateKey{PublicKey: ecdsa.PublicKey{Curve: elliptic.P384(), X: x, Y: y}, D: d}
+		pub := append(x.FillBytes(make([]byte, 48)), y.FillBytes(make([]byte, 48))...)
+		rd := rngReader{g.R}
+		return &signer{typ: 2, pub: pub, sign: func(m []byte) []byte {
+			h := sha512.Sum384(m)
+			r, s, err := ecdsa.Sign(rd, k, h[:])
+			if err != nil {
+				panic("harness: ecdsa sign: " + err.Error())
+			}
+			return append(r.FillBytes(make([]byte, 48)), s.FillBytes(make([]byte, 48))...)
 		}}
 	case 0:
 		var priv i2pdsa.DSAPrivateKey
@@ -109,6 +131,25 @@ func (g *G) newIdentity(sigType, cpk int, nullCert bool, extra []byte) *identity
 // pickIdentity draws an identity admissible for a Destination (or RouterIdentity when rid).
 func (g *G) pickIdentity(rid bool) *identity {
 	r := g.R
+	if r.coin(0.12) {
+		// key types that are prohibited in this kind of identity (the embedding parsers must reject them)
+		if rid {
+			switch r.intn(3) {
+			case 0:
+				return g.newIdentity(11, r.pick(0, 4), false, nil)
+			case 1:
+				return g.newIdentity(8, 4, false, nil)
+			}
+			return g.newIdentity(7, r.pick(5, 6, 7), false, nil)
+		}
+		if r.coin(0.5) {
+			return g.newIdentity(8, r.pick(0, 4), false, nil)
+		}
+		return g.newIdentity(r.pick(7, 11, 1), r.pick(5, 6, 7), false, nil)
+	}
+	if r.coin(0.08) {
+		return g.newIdentity(2, r.pick(0, 4), false, nil)
+	}
 	switch r.intn(8) {
 	case 0:
 		if !rid {
@@ -262,7 +303,12 @@ func (g *G) transientFor(p float64) *signer {
 	if !g.R.coin(p) {
 		return nil
 	}
-	return g.newSigner(g.R.pick(7, 7, 7, 11, 1))
+	// incl. types whose signature length differs from the usual 64 bytes (P-384: 96, DSA: 40)
+	t := g.R.pick(7, 7, 7, 11, 1, 2, 2)
+	if g.R.coin(0.08) {
+		t = 0
+	}
+	return g.newSigner(t)
 }
 
 func (g *G) forgeKind() string {
@@ -389,6 +435,45 @@ func genSignedStructs(g *G, count int) {
 			g.gen += tag
 			g.emit("readRI", hx(b))
 		}
+		if i < 2 || !g.quick() && i < 20 {
+			// every truncation point of one well-formed encoding per structure
+			g.emitCuts("readRI", cat(rb, rid.sg.sign(rb)), "ri-cuts")
+			g.emitCuts("readLS2", cat(body, make([]byte, 64)), "ls2-cuts")
+			g.emitCuts("readMeta", cat(mb, make([]byte, 64)), "meta-cuts")
+			g.emitCuts("readELS", cat(eb, make([]byte, 64)), "els-cuts")
+			g.emitCuts("readLS", cat(lb, id.sg.sign(lb)), "ls-cuts")
+		}
+	}
+}
+
+// emitCuts emits truncations of a well-formed encoding: every cut point (thorough) or a spread that
+// covers the head, every 1/24th of the length and the last 70 bytes (quick).
+func (g *G) emitCuts(op string, b []byte, tag string) {
+	g.gen = tag
+	if !g.quick() {
+		for k := 0; k < len(b); k++ {
+			g.emit(op, hx(b[:k]))
+		}
+		return
+	}
+	seen := map[int]bool{}
+	add := func(k int) {
+		if k >= 0 && k < len(b) && !seen[k] {
+			seen[k] = true
+			g.emit(op, hx(b[:k]))
+		}
+	}
+	for k := 0; k < 4; k++ {
+		add(k)
+	}
+	for i := 1; i < 24; i++ {
+		add(len(b) * i / 24)
+	}
+	for k := len(b) - 70; k < len(b); k++ {
+		add(k)
+	}
+	for k := 380; k < 400; k++ {
+		add(k)
 	}
 }
 
